@@ -359,7 +359,22 @@ def pred_eigen(spec: dict, x, np_seed: int, chain: dict | None = None):
         h.eigenvector_bounds = [(-math.inf, math.inf)] * d
     lo, up = c.active_bounds()                     # what `run` hands on
     h.update_eigenvector_bounds(lo, up)
-    ret, err = call(h.get_smallest_eigenvector, iv, c, lo, up)
+    # how the curvature search's own minimisation ended (observed from outside): the accuracy bounds below hold for a
+    # search that stopped on its gradient criterion, not for one cut short by the iteration limit or the line search
+    import topsearch.transition_states.hybrid_eigenvector_following as _hefmod
+    ended = {}
+    _real_min = _hefmod.lbfgs.minimise
+
+    def _spy(*a, **k):
+        out = _real_min(*a, **k)
+        ended["warn"], ended["task"] = out[2].get("warnflag"), str(out[2].get("task"))
+        return out
+    _hefmod.lbfgs.minimise = _spy
+    try:
+        ret, err = call(h.get_smallest_eigenvector, iv, c, lo, up)
+    finally:
+        _hefmod.lbfgs.minimise = _real_min
+    on_criterion = ended.get("warn") == 0 and "NORM_OF_PROJECTED_GRADIENT" in ended.get("task", "")
     # where the point really is: direct comparison with the box, written here
     xa = np.array(x, dtype=float)
     lo = xa <= np.array([b[0] for b in bounds], dtype=float)
@@ -405,13 +420,13 @@ def pred_eigen(spec: dict, x, np_seed: int, chain: dict | None = None):
             sin_a = math.sqrt(max(0.0, 1.0 - float(np.dot(v, U[:, 0])) ** 2))
             bound = 4.0 * (math.sqrt(d) * crit + fd) / float(w[1] - w[0]) if d >= 2 else None
             RATIOS.append(sin_a / bound if bound else 0.0)
-            if bound is not None and sin_a > bound and nit is not None:
+            if bound is not None and sin_a > bound and on_criterion:
                 return ("get_smallest_eigenvector:eigenvector-beyond-requested-accuracy",
                         f"returned direction makes an angle with the softest mode of sine {sin_a:.3e} at {list(x)} (d={d}, gap "
                         f"{float(w[1] - w[0]):.3g}); with the requested eigenvalue criterion {crit} and the finite-difference "
                         f"error {fd:.2e} it is at most {bound:.3e} (search options: steepest-descent criterion "
                         f"{getattr(h, 'steepest_descent_conv_crit', None)})"), None
-            if abs(ev - w[0]) > 2.0 * fd + 2e-5 * scale:
+            if on_criterion and abs(ev - w[0]) > 2.0 * fd + 2e-5 * scale:
                 return ("get_smallest_eigenvector:eigenvalue-beyond-finite-difference-accuracy",
                         f"returned eigenvalue {ev!r}, lowest Hessian eigenvalue {w[0]!r} at {list(x)} (d={d}): off by "
                         f"{abs(ev - w[0]):.3e}, the finite-difference error of the displacement 1e-3 on this surface is "
